@@ -391,8 +391,7 @@ Proof. exact RoundTripSets.ascending_sorted. Qed.
        (RoundTripScanE.tokens_of_scan_upto: every formatter output is scannable up to its first elision;
         ErrorTokens.lex_prefix_dot: the scanner on a scannable prefix followed by arbitrary text);
    (2) the parser never consumes an Error token (ErrorTokens.accepted_no_error, from ParserProofs.nonEOF),
-       so ParseSource does NOT return a value: it stops with a located diagnostic for a token of that
-       stream — or, only when the collator panics on a Set that is complete before the dots, with that panic.
+       so ParseSource does NOT return a value: it stops with a located diagnostic for a token of that stream.
    NOT proved: that the diagnostic names the Error token itself rather than an earlier token (it needs
    the parser on a proper prefix of a derivation); C10_elided_not_parsed_partial below pins it for the
    chains of single-item sequences, RoundTripRun.v observes it on every generated elided text. *)
@@ -416,12 +415,7 @@ Theorem C10_elided_not_parsed :
     (exists pre line pos,
        Lexer.lex text = pre ++ [Lexer.mkTok Lexer.TError [46] line pos; Lexer.mkTok Lexer.TEOF [46] line pos] /\
        Forall (fun t => Lexer.ttype_of t <> Lexer.TError) pre) /\
-    match Parser.parse_source fparse crank text with
-    | Parser.PValue _ => False
-    | Parser.PSyntax t => In t (Lexer.lex text)
-    | Parser.PRuntime Parser.RCollator => exists a b, crank a b = None
-    | _ => False
-    end.
+    (exists t, Parser.parse_source fparse crank text = Parser.PSyntax t /\ In t (Lexer.lex text)).
 Proof. exact RoundTripScanE.elided_not_parsed. Qed.
 
 (* the general facts behind it, for any source text *)
